@@ -2,46 +2,15 @@
 from harness import core, full_oracle, l5full
 
 
-def classify_error(multi, res):
-    """tags of a generator failure on a valid input"""
-    tags = {"generator-error", res["err"]}
-    msg = res.get("msg", "")
-    if res["err"] == "IndexError":
-        holders = max((len({b[1] for b in d["balances"]}) for d in (res.get("computed") or {}).values()), default=0)
-        if holders > 21:
-            tags.add("tax-sheet-overflow-holders")
-    if res["err"] == "KeyError" and "1970" in msg and len(multi["sched"]) == 1 and multi["sched"][0][0] != 1970:
-        tags.add("single-schedule-not-1970")
-    if res["err"] == "KeyError" and "_AssetAndYear" in msg:
-        tags.add("summary-link-keyerror")
-    return tags
-
-
-def judge(multi, res):
-    """-> list of (text, tags) for one run of the implementation; [] = the report satisfies C13"""
-    if res.get("err"):
-        if res.get("stage") != "computed":
-            return None                                    # the input was rejected before any report was generated
-        return [(f"the input is valid (compute_tax succeeds) but rp2_full_report raised {res['err']}: {res.get('msg', '')[:160]}; no report is written",
-                 classify_error(multi, res))]
-    return full_oracle.check_c13(multi, res)
-
-
 def run(tier, build, replay=None):
     out = core.Outcome("C13", tier)
     proofs = core.check_proofs(build, "C13.v")
-    if replay:
-        cases = [replay]
-        impl, model = l5full.run_cases(cases)
-    else:
-        data = l5full.run(tier)
-        cases, impl, model = data["cases"], data["impl"], data["model"]
-    nontriv, mism, rejected, generated = set(), 0, 0, 0
+    recs = l5full.judge_cases([replay]) if replay else l5full.run(tier)["records"]
+    nontriv, mism, rejected, generated, cells = set(), 0, 0, 0, 0
     kinds, countries, windows = {}, {}, {"none": 0, "from": 0, "to": 0, "both": 0}
-    cells = 0
-    for multi, res, raw in zip(cases, impl, model):
-        verdict = judge(multi, res)
-        if verdict is None:
+    for rec in recs:
+        multi = rec["case"]
+        if rec["c13"] is None:
             rejected += 1
             continue
         kinds[multi.get("kind", "?")] = kinds.get(multi.get("kind", "?"), 0) + 1
@@ -49,29 +18,28 @@ def run(tier, build, replay=None):
         f, t = multi.get("from"), multi.get("to")
         windows["none" if f is None and t is None else "from" if t is None else "to" if f is None else "both"] += 1
         shrunk = None
-        for text, tags in verdict[:3]:
+        for text, tags in rec["c13"][:3]:
+            tags = set(tags)
             if shrunk is None:
-                shrunk = l5full.shrink(multi, lambda m, r, tg=tags: any(tg <= t2 for _, t2 in (judge(m, r) or [])))
+                shrunk = l5full.shrink(multi, lambda m, r, tg=tags: any(tg <= t2 for _, t2 in (full_oracle.judge_c13(m, r) or [])))
             out.violation(text, shrunk, tags=tags)
-        if not res.get("err"):
+        if not rec["err"]:
             generated += 1
-            cells += sum(len(s["cells"]) for s in res["sheets"])
-            d = res["computed"]
-            if sum(len(x["fractions"]) for x in d.values()) >= 2 and sum(1 for x in d.values() for k in ("ins", "outs", "intras") if x[k]) >= 2:
+            cells += rec["stats"]["cells"]
+            if rec["stats"]["nontriv13"]:
                 nontriv.add(core.case_hash(multi))
-        diff = l5full.correspondence(multi, res, raw)
-        if diff:
+        if rec["corr"]:
             mism += 1
-            out.violation("model and implementation disagree on the report: " + "; ".join(diff[:4]), multi, tags={"correspondence"}, found_input=False)
-    core.proofs_verdict(out, proofs, build, "C13.v")
+            out.violation("model and implementation disagree on the report: " + "; ".join(rec["corr"][:4]), multi, tags={"correspondence"}, found_input=False)
+    l5full.proofs_verdict(out, proofs, build, "C13.v")
     out.coverage.update({
-        "evaluations": len(cases) - rejected,
+        "evaluations": len(recs) - rejected,
         "distinct_nontrivial": len(nontriv),
         "rule": "each generated multi-asset input (1-4 assets with colliding row numbers, unsorted rows, all transaction types, several holders/exchanges, "
                 "method schedules, windows none/from/to/both) is run through rp2_full_report in a fresh interpreter; the .ods is (a) judged table by table "
                 "against the ComputedData dump and the input (oracle) and (b) compared cell by cell, sheet sizes included, with the Coq model of the "
                 "generator; non-trivial = at least two non-empty transaction tables and two fractions",
-        "samples": cases[:1],
+        "samples": [r["case"] for r in recs[:1]],
         "traces_validated_against_impl": generated,
         "cells_compared": cells,
         "correspondence_mismatches": mism,
